@@ -142,7 +142,7 @@ Example C17_nonvacuous :
     saved_bytes s 1 = Some [1; 2; 3; 4].
 Proof.
   cbv zeta. eexists. eexists. eexists.
-  split; [vm_compute; reflexivity|]. split; [vm_compute; reflexivity|]. split; [vm_compute; auto|].
+  split; [vm_compute; reflexivity|]. split; [vm_compute; reflexivity|]. split; [vm_compute; repeat split; try reflexivity; intros Hc; discriminate Hc|].
   split; [vm_compute; reflexivity|]. split.
   - eapply io_pkg; [vm_compute; reflexivity|]. eapply io_other; [vm_compute; discriminate|].
     eapply io_dup; [vm_compute; reflexivity|reflexivity|reflexivity|]. eapply io_pkg; [vm_compute; reflexivity|]. apply io_done.
